@@ -6,6 +6,7 @@ A spec is a tuple whose first item is the kind:
   ("canon", n, shard, nshards, stride, relabels, seed)
   ("hyp", seed, shard, examples, max_n)
   ("corpus", shard, nshards, limit)
+  ("fuzz", check module, seed, shard, runs, max_n, "empty"|"corpus")   coverage-guided campaign in a child process (fuzz_child.py)
 """
 
 from __future__ import annotations
@@ -18,8 +19,18 @@ from . import gen_graphs as gg
 from .core import Collector, h64
 
 
-def plan(tier: str, seed: int, scale: float = 1.0, max_n_quick=14, max_n_thorough=32, corpus=True):
-    specs = []
+def fuzz_specs(tier, seed, modname, scale=1.0):
+    """16 libFuzzer campaigns (half from an empty corpus, half from a few enumerated graphs)."""
+    if not modname:
+        return []
+    runs = max(200, int((2500 if tier == "quick" else 60000) * scale))
+    max_n = 12 if tier == "quick" else 20
+    # quick: too short for an empty corpus to grow beyond chains, so every campaign starts from enumerated graphs
+    return [("fuzz", modname, seed, s, runs, max_n, "corpus" if tier == "quick" else ("empty", "corpus")[s % 2]) for s in range(16)]
+
+
+def plan(tier: str, seed: int, scale: float = 1.0, max_n_quick=14, max_n_thorough=32, corpus=True, fuzz_mod=None):
+    specs = fuzz_specs(tier, seed, fuzz_mod, scale)
     if tier == "quick":
         specs.append(("enum", 1, 0, 1, 1, 0))
         specs.append(("enum", 2, 0, 1, 1, 0))
@@ -154,7 +165,42 @@ def iterate(spec, visit):
         raise ValueError(kind)
 
 
+def run_fuzz(spec):
+    import os
+    import pickle
+    import subprocess
+    import sys
+    import tempfile
+
+    from .core import REPO, VERIF
+
+    _, modname, seed, shard, runs, max_n, mode = spec
+    work = VERIF / ".work"
+    work.mkdir(exist_ok=True)
+    fd, out = tempfile.mkstemp(prefix=f"fuzz-{modname.split('.')[-1]}-{shard}-", suffix=".pkl", dir=work)
+    os.close(fd)
+    env = dict(os.environ, PYTHONPATH=f"{REPO}:{VERIF}", PYTHONHASHSEED="0", PYTHONDONTWRITEBYTECODE="1", VERIF_REPO=str(REPO))
+    try:
+        p = subprocess.run([sys.executable, "-m", "vpbt.fuzz_child", modname, str(seed), str(shard), str(runs), str(max_n), out, mode], cwd=VERIF, env=env, capture_output=True, text=True)
+        if p.returncode == 3:
+            col = Collector()
+            col.count("fuzz_skipped_no_atheris")
+            return col.result()
+        if p.returncode != 0 or os.path.getsize(out) == 0:
+            raise RuntimeError(f"fuzz child {modname} shard {shard} exit {p.returncode}: {(p.stdout + p.stderr)[-1500:]}")
+        with open(out, "rb") as f:
+            return pickle.load(f)
+    finally:
+        import shutil
+
+        if os.path.exists(out):
+            os.unlink(out)
+        shutil.rmtree(out + ".corpus", ignore_errors=True)
+
+
 def run(spec, evaluate):
+    if spec[0] == "fuzz":
+        return run_fuzz(spec)
     col = Collector()
 
     def visit(intg, named, origin):
